@@ -317,6 +317,14 @@ pub fn special_asts() -> Vec<Ast> {
         Ast::Inter(vec![Ast::Concat(a(), Box::new(Ast::Full)), Ast::Concat(Box::new(Ast::Full), b())]),
         Ast::Concat(a(), Box::new(Ast::Concat(Box::new(Ast::Plus(b())), Box::new(Ast::Range(A + 2, A + 2))))),
         Ast::Str(vec![A, A + 2]),
+        // a union nested under an intersection / a complement, next to a sibling that includes only one of its members
+        Ast::Union(vec![Ast::Inter(vec![Ast::Union(vec![Ast::Str(vec![A, A + 1]), Ast::Str(vec![A + 2, A])]), Ast::Exp(Box::new(Ast::AllChars), 2)]), Ast::Concat(a(), Box::new(Ast::Full))]),
+        Ast::Union(vec![Ast::Concat(a(), Box::new(Ast::Full)), Ast::Inter(vec![Ast::Union(vec![Ast::Str(vec![A + 2, A]), Ast::Str(vec![A, A + 1])]), Ast::Exp(Box::new(Ast::AllChars), 2)])]),
+        Ast::Union(vec![Ast::Comp(Box::new(Ast::Concat(a(), Box::new(Ast::Full)))), Ast::Comp(Box::new(Ast::Union(vec![Ast::Str(vec![A, A + 1]), Ast::Str(vec![A + 2, A])])))]),
+        Ast::Union(vec![Ast::Comp(Box::new(Ast::Union(vec![Ast::Str(vec![A + 2, A]), Ast::Str(vec![A, A + 1])]))), Ast::Comp(Box::new(Ast::Concat(a(), Box::new(Ast::Full))))]),
+        // the same, cut down to the member that would be lost (emptiness then depends on it)
+        Ast::Inter(vec![Ast::Union(vec![Ast::Inter(vec![Ast::Union(vec![Ast::Str(vec![A, A + 1]), Ast::Str(vec![A + 2, A])]), Ast::Exp(Box::new(Ast::AllChars), 2)]), Ast::Concat(a(), Box::new(Ast::Full))]), Ast::Str(vec![A + 2, A])]),
+        Ast::Inter(vec![Ast::Union(vec![Ast::Comp(Box::new(Ast::Concat(a(), Box::new(Ast::Full)))), Ast::Comp(Box::new(Ast::Union(vec![Ast::Str(vec![A, A + 1]), Ast::Str(vec![A + 2, A])])))]), Ast::Str(vec![A + 2, A])]),
     ]
 }
 
@@ -388,6 +396,33 @@ pub fn c01(ctx: &mut Ctx) -> Option<Failure> {
                 let got = m.str_in_re(&sm(&w), if on_comp { ne } else { e });
                 if got != exp {
                     return fail("ReManager::str_in_re(300 classes)", format!("union of chr(1000+2i), i<300; complement={} word={:?} queries {}", on_comp, w, if reversed { "reversed" } else { "in order" }), format!("{}", exp), format!("{}", got));
+                }
+            }
+            None
+        });
+        if r.is_some() {
+            return r;
+        }
+    }
+    // one-character terms must not alias: characters equal modulo 128 / 256 / 65536, built in both orders
+    for reversed in [false, true] {
+        let r = ctx.case(|| {
+            let mut cs: Vec<u32> = vec![A, A + 0x80, A + 0x100, A + 0x10000, A + 0x20000, 0x2FF00 + A, 0, 0x80, 0x7F, 0xFF, 0x10000, MAXC];
+            if reversed {
+                cs.reverse();
+            }
+            watch(format!("char(c) for c in {:?}", cs));
+            let mut m = ReManager::new();
+            let ts: Vec<RegLan> = cs.iter().map(|&c| m.char(c)).collect();
+            let ss: Vec<RegLan> = cs.iter().map(|&c| m.str(&sm(&[c, c]))).collect();
+            for (i, &c) in cs.iter().enumerate() {
+                for &d in &cs {
+                    if m.str_in_re(&sm(&[d]), ts[i]) != (c == d) || m.str_in_re(&sm(&[d, d]), ss[i]) != (c == d) {
+                        return fail("ReManager::char(history)", format!("chars built in the order {:?}; term for {} asked about {}", cs, c, d), format!("{}", c == d), format!("{}", c != d));
+                    }
+                }
+                if !std::ptr::eq(m.char(c), ts[i]) {
+                    return fail("ReManager::char(identity)", format!("chars built in the order {:?}; char({}) repeated", cs, c), "the same term".into(), "another term".into());
                 }
             }
             None
@@ -539,6 +574,17 @@ pub fn c03(ctx: &mut Ctx) -> Option<Failure> {
                         return fail("ReManager::set_derivative(straddling)", format!("{} set [{},{}]", show(&ast), hi, hi + 1), format!("is_ok = {}", covered_or_disjoint), format!("is_ok = {}", got.is_ok()));
                     }
                 }
+            }
+            // the three listings of the classes agree: char_ranges, class_ids, num_deriv_classes
+            let listed: Vec<ClassId> = e.class_ids().collect();
+            let n_int = listed.iter().filter(|c| matches!(c, ClassId::Interval(_))).count();
+            if e.num_deriv_classes() != ranges.len() || n_int != ranges.len() || listed.iter().take(n_int).enumerate().any(|(i, c)| *c != ClassId::Interval(i)) {
+                return fail("RE::num_deriv_classes/class_ids/char_ranges", show(&ast), format!("{} interval classes listed consistently", ranges.len()), format!("num_deriv_classes {} class_ids {:?}", e.num_deriv_classes(), listed));
+            }
+            // the listed classes cover the alphabet
+            let cov: u64 = ranges.iter().map(|&(lo, hi)| (hi - lo) as u64 + 1).sum();
+            if listed.contains(&ClassId::Complement) != (cov < MAXC as u64 + 1) || ranges.windows(2).any(|w| w[0].1 >= w[1].0) {
+                return fail("RE::class_ids(cover the alphabet)", show(&ast), "Complement listed iff the intervals leave characters out".into(), format!("{:?} with intervals {:?}", listed, ranges));
             }
             if m.class_derivative(e, ClassId::Interval(ranges.len())).is_ok() {
                 return fail("ReManager::class_derivative(bad id)", show(&ast), "Err(BadClassId)".into(), "Ok".into());
@@ -732,10 +778,33 @@ pub fn builder_automata_checks(ctx: &mut Ctx, which: &str) -> Option<Failure> {
                             return fail("Automaton::edges", format!("{} state {} class {:?}", desc, q, cid), "the successor for that class".into(), format!("state {}", nxt.id()));
                         }
                     }
+                    // accessors describe the same structure: default successor, labels, class ids, one pick per class
+                    match (st.default_successor(), a.default_successor(st)) {
+                        (None, None) => {}
+                        (Some(d), Some(ds)) if ds.id() == d && a.class_next(st, ClassId::Complement).id() == d => {}
+                        (d, ds) => return fail("Automaton::default_successor", format!("{} state {}", desc, q), format!("{:?}", d), format!("{:?}", ds.map(|x| x.id()))),
+                    }
+                    let labels: Vec<CharSet> = st.char_ranges().copied().collect();
+                    if labels.len() != st.num_successors() || labels.iter().enumerate().any(|(i, l)| st.class_of_char(l.pick()) != ClassId::Interval(i) || st.class_of_char(l.pick() + (l.size() - 1)) != ClassId::Interval(i)) {
+                        return fail("State::char_ranges", format!("{} state {}", desc, q), format!("the {} transition labels in class order", st.num_successors()), format!("{:?}", labels));
+                    }
+                    let cids: Vec<ClassId> = st.char_classes().collect();
+                    let picks: Vec<u32> = st.char_picks().collect();
+                    let edge_ids: Vec<ClassId> = a.edges(st).map(|(cid, _)| cid).collect();
+                    if cids != edge_ids {
+                        return fail("State::char_classes", format!("{} state {}", desc, q), format!("{:?}", edge_ids), format!("{:?}", cids));
+                    }
+                    if picks.len() != cids.len() || picks.iter().zip(cids.iter()).any(|(&c, &cid)| st.class_of_char(c) != cid) {
+                        return fail("State::char_picks", format!("{} state {}", desc, q), format!("one character of each class {:?}", cids), format!("{:?}", picks));
+                    }
                     let expc = st.num_successors() + if st.has_default_successor() { 1 } else { 0 };
                     if cnt != expc {
                         return fail("Automaton::edges(count)", format!("{} state {}", desc, q), format!("{}", expc), format!("{}", cnt));
                     }
+                }
+                let ids: Vec<usize> = a.states().map(|s| s.id()).collect();
+                if ids != (0..n).collect::<Vec<usize>>() {
+                    return fail("Automaton::states", desc.clone(), format!("the {} states in id order", n), format!("{:?}", ids));
                 }
                 let fin: Vec<usize> = a.final_states().map(|s| s.id()).collect();
                 let expf: Vec<usize> = (0..n).filter(|&q| a.state(q).is_final()).collect();
